@@ -52,5 +52,30 @@ Prog(op, c, pos) ==
 Keys == UNION {{<<op, c, pos>> : c \in Combos(op), pos \in Positions} : op \in Ops}
 CaseOf(k) == [op |-> k[1], b1 |-> k[2][1], b2 |-> k[2][2], l |-> k[2][3], pos |-> k[3], prog |-> Prog(k[1], k[2], k[3]),
               pc |-> IF k[3] = "first" THEN 0 ELSE 1]
-OwnCases == LET ks == SetToSeq(Keys) IN [i \in 1..Len(ks) |-> CaseOf(ks[i])]
+\* ---- jump-target partition (A.17 / A.18): every kind of jump x every class of target ----
+\* fixed target area:  0 fallthrough | 1 load_imm r0,7 (basic block) | 4 load_imm r1,9 (instruction, not a block start)
+\* | 7 <invalid 2> | 8 load_imm r2,5 (follows an invalid opcode: not a block start) | 11 trap | 12 <invalid 2> (follows a
+\* terminator but holds no valid opcode) | 13 fallthrough | 14 the jump under test (a block start: a self jump loops) | trap
+JArea == <<1, 51, 0, 7, 51, 1, 9, 2, 51, 2, 5, 0, 2, 1>>
+JAreaMask == <<1, 1, 0, 0, 1, 0, 0, 1, 1, 0, 0, 1, 1, 1>>
+JTargets == <<1, 4, 8, 12, 2, 14, 0, 11>>       \* block, instr, after-invalid, invalid-at-block-position, mid-instruction, self, start, trap
+JKinds == {"jump", "load_imm_jump", "branch_eq", "jump_ind", "load_imm_jump_ind", "beyond", "negative"}
+Off1(t) == (t - 14 + 256) % 256                       \* one-byte offset relative to position 14
+JInstr(kind, ti) ==
+  CASE kind = "jump" -> <<40, Off1(JTargets[ti])>>
+    [] kind = "load_imm_jump" -> <<80, 19, 77, Off1(JTargets[ti])>>          \* ra = 3, lX = 1, imm 77
+    [] kind = "branch_eq" -> <<170, 68, Off1(JTargets[ti])>>                  \* ra = rb = 4: always taken
+    [] kind = "jump_ind" -> <<50, 5, 2 * ti>>                                 \* r5 = 0, imm = 2*ti: jump-table entry ti
+    [] kind = "load_imm_jump_ind" -> <<180, 86, 17, 66, 2 * ti>>              \* ra = 6, rb = 5, lX = 1 (imm 66), vY = 2*ti
+    [] kind = "beyond" -> <<40, ti + 2>>                                      \* just past the jump, the end of the code and beyond
+    [] kind = "negative" -> <<40, 200 + ti>>                                  \* before position 0 (wraps around 2^32)
+JProg(kind, ti) == LET ins == JInstr(kind, ti) IN
+  [code |-> JArea \o ins \o <<0>>, mask |-> JAreaMask \o <<1>> \o Rep(0, Len(ins) - 1) \o <<1>>,
+   jt |-> JTargets, z |-> 1]
+JKeys == {<<kind, ti>> : kind \in JKinds, ti \in 1..Len(JTargets)}
+JCaseOf(k) == [op |-> JProg(k[1], k[2]).code[15], b1 |-> k[2], b2 |-> 0, l |-> 0, pos |-> k[1], prog |-> JProg(k[1], k[2]), pc |-> 14]
+
+OwnCases == LET ks == SetToSeq(Keys)
+                js == SetToSeq(JKeys)
+            IN [i \in 1..Len(ks) |-> CaseOf(ks[i])] \o [i \in 1..Len(js) |-> JCaseOf(js[i])]
 =============================================================================
